@@ -181,6 +181,25 @@ func registerExterns(w *World) {
 		mk(st, true)
 		mk(no, false)
 	})
+	w.ext("strings.Cut", "Cut(s, sep) for a literal sep: (before, after, true) with s == before ++ sep ++ after and sep not in before, or (s, \"\", false) when sep does not occur (case split; decomposition recorded for position lemmas)", func(ex *Exec, st *State, c *callCtx) {
+		s, sep := c.args[0].T, c.args[1].T
+		if !isStrLit(sep) || sep == `""` {
+			panic(subsetErr{"strings.Cut with a non-literal or empty separator"})
+		}
+		rt := c.fn.Signature.Results()
+		no := st.clone()
+		ex.paths++
+		before := ex.fresh("cutbefore", "String")
+		after := ex.fresh("cutafter", "String")
+		st.assume("(str.contains " + s + " " + sep + ")")
+		st.assume(not("(str.contains " + before + " " + sep + ")"))
+		st.assume(eq(s, "(str.++ "+before+" "+sep+" "+after+")"))
+		st.addFact(strFact{kind: "decomp", a: s, parts: []string{before, sep, after}})
+		st.addFact(strFact{kind: "notcontains", a: before, lit: smtStringValue(sep)})
+		no.assume(not("(str.contains " + s + " " + sep + ")"))
+		c.k(st, Val{K: KTuple, Fs: []Val{term(before, rt.At(0).Type()), term(after, rt.At(1).Type()), term("true", tBool)}})
+		c.k(no, Val{K: KTuple, Fs: []Val{term(s, rt.At(0).Type()), term(`""`, rt.At(1).Type()), term("false", tBool)}})
+	})
 	w.ext("strings.Join", "Join(Split(s,sep)[1:], sep) == the text after the first sep (only this composition is modelled)", func(ex *Exec, st *State, c *callCtx) {
 		sl, sep := c.args[0], c.args[1].T
 		if sl.K != KSlice || sl.Fs[1].T != "(+ 0 1)" && sl.Fs[1].T != "1" {
@@ -397,6 +416,23 @@ func registerExterns(w *World) {
 		st.setRegion("G!ctrl1", arr("Int", "String"), store(g1, r, ls[0].T))
 		g2 := st.region("G!ctrl2", arr("Int", "String"))
 		st.setRegion("G!ctrl2", arr("Int", "String"), store(g2, r, ls[1].T))
+		c.k(st, v)
+	})
+	w.ext("(*github.com/prometheus/client_golang/prometheus.CounterVec).With", "CounterVec.With(labels): the counter for labels[\"method\"], labels[\"outcome\"] (the two label names remote_logins_total is declared with — assumed); panics unless exactly those names are present", func(ex *Exec, st *State, c *callCtx) {
+		r := st.allocRef("counter")
+		v := term(r, c.fn.Signature.Results().At(0).Type())
+		m := c.args[1]
+		mt, ok := m.Typ.Underlying().(*types.Map)
+		if !ok {
+			panic(subsetErr{"CounterVec.With on a non-map value"})
+		}
+		ex.record(st, ex.rootName+"/panic:With-labels@"+c.site, "safety", and(not(eq(m.T, "0")), st.mapHas(mt, m.T, `"method"`), st.mapHas(mt, m.T, `"outcome"`)), "CounterVec.With panics when a declared label is missing")
+		l1 := st.mapGet(mt, m.T, `"method"`)
+		l2 := st.mapGet(mt, m.T, `"outcome"`)
+		g1 := st.region("G!ctrl1", arr("Int", "String"))
+		st.setRegion("G!ctrl1", arr("Int", "String"), store(g1, r, l1.T))
+		g2 := st.region("G!ctrl2", arr("Int", "String"))
+		st.setRegion("G!ctrl2", arr("Int", "String"), store(g2, r, l2.T))
 		c.k(st, v)
 	})
 	w.iext("github.com/prometheus/client_golang/prometheus.Counter.Inc", "Counter.Inc(): ctr[l1][l2] += 1, ctrsum += 1", func(ex *Exec, st *State, c *callCtx) {
